@@ -1,3 +1,4 @@
+\* thorough: exactly 4 values, all two-scope layouts
 CONSTANTS
   Layouts = {0, 1, 2, 3, 5, 6, 7, 8}
   Tops = {"graph", "function"}
